@@ -47,7 +47,40 @@ func (z *zzImpl) OnNameChange(value string) error {
 func C05Events() {
 	im := &zzImpl{minThresh: sym.I32("min-threshold")}
 	p := MakeStation(nil, zzServe("Station", StationObject(im), (&stubStation{}).metaObject()))
-	switch sym.Choose("scenario", 5) {
+	switch sym.Choose("scenario", 6) {
+	case 5: // a burst of signals emitted before the subscriber reads any: all of them, in order
+		cancel, ch, err := p.SubscribeAlarm()
+		sym.Assert(err == nil, "burst/subscribe-ok")
+		const burst = 24
+		first, last := sym.I32("first-level"), sym.I32("last-level")
+		for i := 0; i < burst; i++ {
+			level := int32(i)
+			if i == 0 {
+				level = first
+			} else if i == burst-1 {
+				level = last
+			}
+			sym.Assert(im.helper.SignalAlarm(level, "w") == nil, "burst/emit-ok")
+		}
+		sym.Quiesce()
+		for i := 0; i < burst; i++ {
+			select {
+			case ev := <-ch:
+				switch i {
+				case 0:
+					sym.Assert(ev.Level == first, "burst/first-event")
+				case burst - 1:
+					sym.Assert(ev.Level == last, "burst/last-event")
+				default:
+					sym.Assert(ev.Level == int32(i), "burst/event-lost-or-out-of-order")
+				}
+			default:
+				sym.Fail("burst/event-not-delivered")
+				return
+			}
+			sym.Quiesce() // the generated goroutine forwards the next one
+		}
+		cancel()
 	case 4: // service-side updates of both properties, then a signal, then both are read back
 		v, n := sym.I32("threshold"), sym.Str("name", 2)
 		sym.Assume(v >= im.minThresh)
